@@ -2,7 +2,7 @@
 and how the workers' counters become the evidence file."""
 import os
 
-from vcheck import Build, Job, Outcome, VERIF, build_all, collect, gather_samples, run_jobs, sum_counter, build_dir, log
+from vcheck import Build, INCLUDE, Job, Outcome, VERIF, build_all, collect, gather_samples, run_jobs, sum_counter, build_dir, log
 
 # ------------------------------------------------------------------------------ E1 (C01-C06, C16)
 E1_GROUPS = {
@@ -449,6 +449,111 @@ IO_RULE = {
 }
 
 
+C14_STORE_CPP = r"""// one translation unit that writes files with the library
+#include "BaseGraph/directed_graph.hpp"
+#include "BaseGraph/undirected_graph.hpp"
+#include "BaseGraph/fileio.hpp"
+#include <string>
+void storeGraphs(const std::string &dir) {
+    BaseGraph::LabeledDirectedGraph<int> g(3);
+    g.addEdge(0, 1, 7);
+    g.addEdge(2, 2, -2);
+    BaseGraph::io::writeBinaryEdgeList(g, dir + "/lab.bin");
+    BaseGraph::UndirectedGraph u(3);
+    u.addEdge(1, 2);
+    BaseGraph::io::writeBinaryEdgeList(u, dir + "/plain.bin");
+    BaseGraph::io::writeTextEdgeList(u, dir + "/plain.txt");
+}
+"""
+C14_CHECK_CPP = r"""// another translation unit that reads them back (always called from main)
+#include "BaseGraph/directed_graph.hpp"
+#include "BaseGraph/undirected_graph.hpp"
+#include "BaseGraph/fileio.hpp"
+#include <cstdio>
+#include <fstream>
+#include <iterator>
+#include <string>
+static std::string slurp(const std::string &p) { std::ifstream f(p, std::ios::binary); return std::string(std::istreambuf_iterator<char>(f), std::istreambuf_iterator<char>()); }
+int checkFiles(const std::string &dir) {
+    int bad = 0;
+    const unsigned char lab[] = {0,0,0,0, 1,0,0,0, 7,0,0,0,  2,0,0,0, 2,0,0,0, 0xfe,0xff,0xff,0xff};
+    const unsigned char plain[] = {1,0,0,0, 2,0,0,0};
+    if (slurp(dir + "/lab.bin") != std::string((const char *)lab, sizeof lab)) { printf("lab.bin is not the little-endian record sequence\n"); ++bad; }
+    if (slurp(dir + "/plain.bin") != std::string((const char *)plain, sizeof plain)) { printf("plain.bin is not the little-endian record sequence\n"); ++bad; }
+    if (bad) return bad;   // do not load bytes that are already wrong (indices could be huge)
+    auto g = BaseGraph::io::loadBinaryEdgeList<BaseGraph::LabeledDirectedGraph, int>(dir + "/lab.bin");
+    if (g.getSize() != 3 || g.getEdgeNumber() != 2 || !g.hasEdge(0, 1, 7) || !g.hasEdge(2, 2, -2)) { printf("lab.bin loads to another graph\n"); ++bad; }
+    auto u = BaseGraph::io::loadBinaryEdgeList<BaseGraph::LabeledUndirectedGraph, BaseGraph::NoLabel>(dir + "/plain.bin");
+    if (u.getSize() != 3 || u.getEdgeNumber() != 1 || !u.hasEdge(2, 1)) { printf("plain.bin loads to another graph\n"); ++bad; }
+    auto t = BaseGraph::io::loadTextEdgeList<BaseGraph::LabeledUndirectedGraph, BaseGraph::NoLabel>(dir + "/plain.txt");
+    if (t.first.getSize() != 3 || t.first.getEdgeNumber() != 1 || !t.first.hasEdge(1, 2)) { printf("plain.txt loads to another graph\n"); ++bad; }
+    return bad;
+}
+"""
+C14_MAIN_CPP = r"""#include <cstdlib>
+#include <string>
+void storeGraphs(const std::string &);
+int checkFiles(const std::string &);
+static std::string dir() { return std::getenv("C14_DIR"); }
+#ifdef WRITE_AT_STARTUP
+// the writer runs inside the constructor of a namespace-scope object: before main, and - depending on the link
+// order - before the dynamic initialisation of the translation unit that contains the writer
+static struct AtStartup { AtStartup() { storeGraphs(dir()); } } atStartup;
+#endif
+int main() {
+#ifndef WRITE_AT_STARTUP
+    storeGraphs(dir());
+#endif
+    return checkFiles(dir());
+}
+"""
+
+
+def c14_when_and_where(outcome):
+    """'the same bytes ... in any run': the writers are called from main and from the constructor of a namespace-scope
+    object of another translation unit, with both link orders and both compilers (8 cells)."""
+    import shutil
+    import subprocess
+    work = os.path.join(build_dir(), "work-C14-units-%d" % os.getpid())
+    os.makedirs(work, exist_ok=True)
+    for name, text in (("store.cpp", C14_STORE_CPP), ("check.cpp", C14_CHECK_CPP), ("main.cpp", C14_MAIN_CPP)):
+        with open(os.path.join(work, name), "w") as fh:
+            fh.write(text)
+    cells = 0
+    for comp in ("g++", "clang++"):
+        objs = {}
+        failed = False
+        for src, defs in (("store", []), ("check", []), ("main", []), ("main_startup", ["-DWRITE_AT_STARTUP"])):
+            o = os.path.join(work, "%s_%s.o" % (src, comp.replace("+", "p")))
+            cmd = [comp, "-std=c++14", "-O1", "-I", INCLUDE] + defs + ["-c", os.path.join(work, src.split("_")[0] + ".cpp"), "-o", o]
+            p = subprocess.run(cmd, stdout=subprocess.PIPE, stderr=subprocess.STDOUT, text=True)
+            if p.returncode != 0:
+                outcome.add_violation("C14:units:compile", "a client translation unit of the binary/text writers does not compile with %s:\n%s" % (comp, p.stdout[-1500:]), {"command": " ".join(cmd)})
+                failed = True
+                break
+            objs[src] = o
+        if failed:
+            continue
+        for when in ("main", "main_startup"):
+            for order in (("first", [objs[when], objs["store"], objs["check"]]), ("last", [objs["store"], objs["check"], objs[when]])):
+                cells += 1
+                exe = os.path.join(work, "prog_%s_%s_%s" % (comp.replace("+", "p"), when, order[0]))
+                d = exe + ".d"
+                os.makedirs(d, exist_ok=True)
+                p = subprocess.run([comp] + order[1] + ["-o", exe], stdout=subprocess.PIPE, stderr=subprocess.STDOUT, text=True)
+                if p.returncode == 0:
+                    env = dict(os.environ)
+                    env["C14_DIR"] = d
+                    p = subprocess.run([exe], stdout=subprocess.PIPE, stderr=subprocess.STDOUT, text=True, env=env, timeout=120)
+                if p.returncode != 0:
+                    what = "from the constructor of a namespace-scope object (before main)" if when == "main_startup" else "from main"
+                    outcome.add_violation("C14:units:%s:%s" % (when, order[0]),
+                                          "files written %s, the calling translation unit linked %s, %s: %s" % (what, order[0], comp, p.stdout[-800:]),
+                                          {"command": "echo 'sources: lib/plans.py C14_STORE_CPP / C14_CHECK_CPP / C14_MAIN_CPP; re-run bin/check C14 --tier quick'; false"})
+    shutil.rmtree(work, ignore_errors=True)
+    return cells
+
+
 def run_io(prop, tier, deadline):
     import shutil
     outcome = Outcome(prop, tier, "fault_enumeration" if prop == "C15" else "exploration")
@@ -469,8 +574,11 @@ def run_io(prop, tier, deadline):
     results = collect(outcome, jobs, built)
     shutil.rmtree(workdir, ignore_errors=True)
     per = {r.get("config", "?"): r.get("counters", {}).get("cases", 0) for r in results}
+    unit_cells = c14_when_and_where(outcome) if prop == "C14" else 0
+    if unit_cells:
+        per["writers called from main / before main x link order x compiler"] = unit_cells
     outcome.coverage = {
-        "evaluations": sum_counter(results, "cases"),
+        "evaluations": sum_counter(results, "cases") + unit_cells,
         "distinct_nontrivial": sum_counter(results, "nontrivial_cases"),
         "rule": IO_RULE[prop],
         "samples": gather_samples(results, 6),
